@@ -35,7 +35,13 @@ Round 5:
    lines on a narrow console) and must show every language name, figure and annotation completely wherever the console
    is wide enough for every word of the table (`h4_round5.fits_wrapped`); consoles narrower than that are counted
    (`too_narrow`, `too_narrow_truncated`: the unchanged tree cuts cells with an ellipsis there - an observation);
-   the same through report_command with COLUMNS = 80 .. 120 on reports with thousands of functions and 10^4 .. 10^7 lines."""
+   the same through report_command with COLUMNS = 80 .. 120 on reports with thousands of functions and 10^4 .. 10^7 lines.
+
+Round 6: PATH-VALUED OPTIONS - report_command / findings_command (a share through the CLI entry functions in a fresh
+interpreter) run with the process standing at the top / in the parent / in a sibling / inside / at the root of the code
+base, PATH relative or absolute, `--diff` given by a relative name that means the file below the CURRENT directory; reports
+of the same name with other figures (decoys) lie below the code base root, in both cache directories and at the top, and
+another `.codelimit_cache/codelimit.json` lies in the current directory (`lay_out`, `gen_layout`)."""
 import contextlib
 import io
 import os
@@ -260,7 +266,126 @@ def real_findings(report, fmt, full):
 
 # ------------------------------------------------------------------ the real commands
 
-def with_commands(cur_files, prev_files, repo, width=None, fresh=False, findings=True):
+# PATH-VALUED OPTIONS: where the process stands (cwd) relative to the code base, how the code base path is spelled, and
+# the relative name of the comparison report. The command line means: PATH and --diff FILE are resolved like every
+# path a program is given - against the current directory. Same-named DECOY reports (with other figures) lie at every
+# other place the name could be looked up: below the code base root, in its cache directory, in the cache directory of
+# the current directory, at the top.
+CWDS = {"top": ("", "svc/api"), "parent": ("svc", "api"), "sibling": ("other/place", "../../svc/api"), "inside": ("svc/api/sub", ".."),
+        "root": ("svc/api", ".")}
+DIFF_NAMES = ["previous.json", "codelimit-base.json", "reports/base.json", ".codelimit_cache/codelimit.json", "codelimit.json",
+              "./previous.json", "../previous.json", ".codelimit_cache/previous.json"]
+
+
+def gen_layout(rnd, k=None):
+    cwds = sorted(CWDS)
+    cwd = cwds[k % len(cwds)] if k is not None else rnd.choice(cwds)
+    name = DIFF_NAMES[(k // len(cwds)) % len(DIFF_NAMES)] if k is not None else rnd.choice(DIFF_NAMES)
+    return {"cwd": cwd, "path": rnd.choice(["relative", "relative", "absolute"]), "diff": name,
+            "diff_spelling": rnd.choice(["relative", "relative", "relative", "absolute"])}
+
+
+def decoy_files(cur_files):
+    """a report in which every language of `cur_files` has other figures"""
+    out = []
+    for i, (path, language, loc, ms) in enumerate(cur_files):
+        out.append([path + ".dcy", language, loc + 13 + i, [list(m) for m in ms] + [["decoy%d" % i, 1, 0, 40, 33 + (i % 40)]]])
+        if i % 2 == 0:
+            out.append([path + ".dcy2", language, 3, []])
+    return out or [["only.dcy", "Python", 5, [["decoy", 1, 0, 40, 35]]]]
+
+
+def lay_out(d, layout, js, pjs, djs):
+    """-> (cwd, path argument, diff argument | None, decoys written); the current report goes to <root>/.codelimit_cache/codelimit.json,
+    the previous one to <cwd>/<name>"""
+    from pathlib import Path
+    top = Path(d)
+    proj = top / "svc" / "api"
+    cwd = top / CWDS[layout["cwd"]][0]
+    for x in (proj, cwd):
+        x.mkdir(parents=True, exist_ok=True)
+    cur_file = proj / ".codelimit_cache" / "codelimit.json"
+    cur_file.parent.mkdir(parents=True, exist_ok=True)
+    cur_file.write_text(js)
+    taken = {os.path.realpath(cur_file)}
+    diff_arg = None
+    name = layout["diff"]
+    if pjs is not None:
+        diff_file = cwd / name
+        if os.path.realpath(diff_file) in taken:
+            name = "previous.json"
+            diff_file = cwd / name
+        diff_file.parent.mkdir(parents=True, exist_ok=True)
+        diff_file.write_text(pjs)
+        taken.add(os.path.realpath(diff_file))
+        diff_arg = Path(name) if layout.get("diff_spelling") != "absolute" else Path(os.path.abspath(diff_file))
+    decoys = 0
+    places = [proj / name, proj / ".codelimit_cache" / name, cwd / ".codelimit_cache" / name, top / name, proj / os.path.basename(name),
+              proj / ".codelimit_cache" / os.path.basename(name), cwd / ".codelimit_cache" / "codelimit.json", top / ".codelimit_cache" / "codelimit.json"]
+    for f in places:
+        real = os.path.realpath(f)
+        if real in taken or not real.startswith(os.path.realpath(top) + os.sep):
+            continue
+        os.makedirs(os.path.dirname(real), exist_ok=True)
+        with open(real, "w") as fh:
+            fh.write(djs)
+        taken.add(real)
+        decoys += 1
+    path_arg = Path(CWDS[layout["cwd"]][1]) if layout["path"] == "relative" else proj
+    return str(cwd), path_arg, diff_arg, decoys
+
+
+def with_commands(cur_files, prev_files, repo, width=None, fresh=False, findings=True, layout=None):
+    if layout is None:
+        return _with_commands(cur_files, prev_files, repo, width, fresh, findings)
+    from codelimit.commands.findings import findings_command
+    from codelimit.commands.report import report_command
+    from codelimit.common.report.ReportFormat import ReportFormat
+    from codelimit.common.report.ReportReader import ReportReader
+    from codelimit.common.report.ReportWriter import ReportWriter
+    d = tempfile.mkdtemp(prefix="c18_")
+    old_cols = os.environ.get("COLUMNS")
+    old_cwd = os.getcwd()
+    os.environ["COLUMNS"] = str(width or WIDTH)
+    try:
+        js = ReportWriter(build_report(cur_files, repo)).to_json()
+        pjs = ReportWriter(build_report(prev_files, repo)).to_json() if prev_files is not None else None
+        djs = ReportWriter(build_report(decoy_files(cur_files), repo)).to_json()
+        cwd, path_arg, diff_arg, _n = lay_out(d, layout, js, pjs, djs)
+        report = ReportReader.from_json(js)
+        diff = ReportReader.from_json(pjs) if pjs is not None else None
+        outs = {}
+        if fresh:
+            for fmt in ("text", "markdown"):
+                code, out, err = r5.run_entry({"command": "report", "path": str(path_arg), "diff": str(diff_arg) if diff_arg else None, "format": fmt},
+                                              cwd=cwd, columns=width or WIDTH)
+                outs[("report", fmt, None)] = out if code == 0 else "EXIT %s\n%s\n%s" % (code, out, err[-800:])
+            for fmt, full in (("text", False), ("markdown", True)) if findings else ():
+                code, out, err = r5.run_entry({"command": "findings", "path": str(path_arg), "full": full, "format": fmt}, cwd=cwd, columns=width or WIDTH)
+                outs[("findings", fmt, full)] = out if code == 0 else "EXIT %s\n%s\n%s" % (code, out, err[-800:])
+            return report, diff, outs
+        os.chdir(cwd)
+        for fmt in (ReportFormat.text, ReportFormat.markdown):
+            buf = io.StringIO()
+            with contextlib.redirect_stdout(buf):
+                report_command(path_arg, fmt, diff_arg)
+            outs[("report", fmt.value, None)] = buf.getvalue()
+            for full in (False, True) if findings else ():
+                buf = io.StringIO()
+                with contextlib.redirect_stdout(buf):
+                    findings_command(path_arg, full, fmt)
+                outs[("findings", fmt.value, full)] = buf.getvalue()
+        return report, diff, outs
+    finally:
+        os.chdir(old_cwd)
+        if old_cols is None:
+            os.environ.pop("COLUMNS", None)
+        else:
+            os.environ["COLUMNS"] = old_cols
+        shutil.rmtree(d, ignore_errors=True)
+
+
+def _with_commands(cur_files, prev_files, repo, width=None, fresh=False, findings=True):
     """write the reports with ReportWriter, run report_command / findings_command on them (fresh: the CLI entry functions
     `codelimit.__main__.report / findings` in a fresh interpreter per call) on a console `width` columns wide (COLUMNS);
     -> (report as read back, previous as read back, {(kind, fmt, full): stdout})"""
@@ -782,16 +907,16 @@ def run_findings_case(files, cfg=None, cfg_label=None):
     return inps, reqs, obs, fails
 
 
-def run_command_case(cur, prev, repo, cfg=None, width=None, fresh=False, findings=True):
+def run_command_case(cur, prev, repo, cfg=None, width=None, fresh=False, findings=True, layout=None):
     """the same through report_command / findings_command on written reports; cfg = configuration of the process
     that writes the reports and runs the commands (the reference numbers come from a build under the default one);
     width: console width (COLUMNS) - the text overview is then read column by column (cells may be wrapped) and judged
     where the console is wide enough for every word; fresh: the CLI entry functions in a fresh interpreter"""
     if cfg:
         with h4.configured(**cfg):
-            report, diff, outs = with_commands(cur, prev, repo, width, fresh, findings)
+            report, diff, outs = with_commands(cur, prev, repo, width, fresh, findings, layout)
     else:
-        report, diff, outs = with_commands(cur, prev, repo, width, fresh, findings)
+        report, diff, outs = with_commands(cur, prev, repo, width, fresh, findings, layout)
     cur_tot = stored_totals(build_report(cur, repo))
     prev_tot = stored_totals(build_report(prev, repo)) if prev is not None else None
     units = stored_units(build_report(cur, repo))
@@ -802,6 +927,8 @@ def run_command_case(cur, prev, repo, cfg=None, width=None, fresh=False, finding
         inp["width"] = width
     if fresh:
         inp["fresh"] = True
+    if layout:
+        inp["layout"] = layout
     reqs, obs, fails = [], [], []
     req = expected_overview(cur_tot, prev_tot)
     for fmt in ("text", "markdown"):
@@ -820,7 +947,9 @@ def run_command_case(cur, prev, repo, cfg=None, width=None, fresh=False, finding
             o = parse_text_table(part) if fmt == "text" else parse_md_table(part)
         if not meets(o, req):
             fails.append({"input": dict(inp, fmt=fmt), "observed": o, "required": req, "raw": part[-3000:],
-                          "what": "report_command: overview does not show the stored figures"})
+                          "what": "report_command: overview does not show the stored figures" + (
+                              " (PATH and --diff FILE are resolved against the current directory; same-named decoy reports lie below the code base "
+                              "root, in the cache directories and at the top: %s)" % layout if layout else "")})
         reqs.append(overview_request(fmt, cur_tot, prev_tot))
         obs.append(o)
         for full in (False, True):
@@ -1006,6 +1135,24 @@ def correspond(ctx):
         dist["commands_equal_totals"] = dist.get("commands_equal_totals", 0) + 1
         for i, (rq, o) in enumerate(zip(reqs, obs)):
             batch.append((dict(inp, part=i), rq, o, dec_overview if rq.startswith("overview") else dec_findings, "commands"))
+    # ---- path-valued options: cwd x spelling of PATH x relative --diff names, same-named decoys everywhere else
+    rnd = ctx.rng("layouts")
+    dist["layouts"] = {}
+    n_lay = ctx.pick(len(CWDS) * len(DIFF_NAMES), 400)
+    for k in range(n_lay):
+        cur, prev, _ = gen_pair(rnd)
+        if prev is None or k % 4 == 0:
+            cur, prev = gen_equal_totals_pair(rnd) if k % 8 == 0 else (cur, [list(f) for f in cur[:-1]] + gen_findings(rnd, 1))
+        layout = gen_layout(rnd, k)
+        fresh = (k % 13 == 5)
+        inp, reqs, obs, f = run_command_case(cur, prev, rnd.random() < 0.3, None, None, fresh=fresh, findings=(k % 5 == 0) and not fresh, layout=layout)
+        fails += f
+        key = "cwd=%s diff=%s" % (layout["cwd"], layout["diff"])
+        dist["layouts"][key] = dist["layouts"].get(key, 0) + 1
+        if fresh:
+            dist["layouts_fresh_process"] = dist.get("layouts_fresh_process", 0) + 1
+        for i, (rq, o) in enumerate(zip(reqs, obs)):
+            batch.append((dict(inp, part=i), rq, o, dec_overview if rq.startswith("overview") else dec_findings, "commands-layout"))
     # ---- the CLI entry functions in a fresh interpreter: --diff / --format / --full, console widths
     rnd = ctx.rng("fresh-process")
     for k in range(ctx.pick(3, 40)):
@@ -1085,10 +1232,14 @@ def correspond(ctx):
                  "10^0..10^7 per column (all columns of one magnitude, or mixed) rendered as text on consoles %s wide and read back column by column (wrapped "
                  "cells joined): complete wherever the console is wide enough for every word of the table; %d report_command runs on reports with "
                  "thousands of functions and 10^4..10^7 lines at COLUMNS 80..120; widths also get the rungs of integer literals new in the source under check; "
+                 "round 6: %d report_command / findings_command runs (some through the CLI entry functions in a fresh interpreter) with the process standing at the "
+                 "top / in the parent / in a sibling / inside / at the root of the code base, PATH relative or absolute, --diff given by a relative name (%s) "
+                 "meaning the file below the current directory, while same-named reports with other figures lie below the code base root, in the cache "
+                 "directories and at the top, and another `.codelimit_cache/codelimit.json` lies in the current directory; "
                  "non-trivial = distinct diffs with >= 2 current languages, and codebases with more than 10 findings"
                  % (len(pairs), len(dist["findings_by_count"]) and sum(dist["findings_by_count"].values()), dist["commands"], dist.get("histories", 0),
                     dist.get("commands_equal_totals", 0), dist.get("fresh_process_runs", 0), dist.get("width_cases", 0), dist.get("console_widths"),
-                    dist.get("commands_large_figures", 0))),
+                    dist.get("commands_large_figures", 0), sum(dist.get("layouts", {}).values()), ", ".join(DIFF_NAMES))),
         "samples": samples, "exhaustive": False, "distribution": dist,
         "disagreements": dis[:50], "oracle_failures": fails[:50],
         "generated_hashes": {"Gen/Logic.lean": _sha(os.path.join(common.LEAN, "CodeLimit", "Gen", "Logic.lean"))},
@@ -1149,7 +1300,7 @@ def replay(payload):
             return True
         f = run_history(inp["pool"], inp["repos"], inp["ops"])[4]
     else:
-        f = run_command_case(inp["cur"], inp["prev"], inp["repo"], cfg_of(inp) or None, inp.get("width"), bool(inp.get("fresh")))[3]
+        f = run_command_case(inp["cur"], inp["prev"], inp["repo"], cfg_of(inp) or None, inp.get("width"), bool(inp.get("fresh")), layout=inp.get("layout"))[3]
     for x in f[:3]:
         print("still fails: %s\n observed %s\n required %s" % (x.get("what"), x.get("observed"), x.get("required")))
     return not f
